@@ -164,7 +164,7 @@ func init() {
 			}
 			return nt
 		},
-		Rule:    "cases: CNF problems n<=7, 2..17 clauses of length 1..3, mostly unsatisfiable (repeated clauses, conflicting units, a second disjoint core), clause order shuffled, each through MUS, MUSDeletion, MUSInsertion and MUSMaxSat on a problem built by explain.ParseCNF; non-trivial = the input is unsatisfiable and the MUS is a strict subset",
+		Rule:    "cases: CNF problems n<=7, 2..17 clauses of length 1..3 (one fifth: 10..13 variables, sparse, facts with consequences, judged by the one-pass formulation Logic!FalsSets), mostly unsatisfiable (repeated clauses, conflicting units, a second disjoint core), clause order shuffled, each through MUS, MUSDeletion, MUSInsertion and MUSMaxSat on a problem built by explain.ParseCNF; non-trivial = the input is unsatisfiable and the MUS is a strict subset",
 		Require: []string{"method.MUS", "method.MUSDeletion", "method.MUSInsertion", "method.MUSMaxSat", "mus.error", "mus.strict-subset"},
 	})
 
@@ -227,12 +227,44 @@ func init() {
 				default:
 					ev = []gen.M{{"op": "check", "entry": entry, "src": "solver", "cert": [][]int{}, "mut": muts[r.Intn(len(muts))], "seed": r.Intn(1 << 20)}}
 				}
-				res = append(res, gen.M{"drv": "explain", "n": n, "clauses": clauses, "ev": ev})
+				if i%3 == 0 { // several uses of the same Problem value, a rejected certificate first: whatever a
+					// check leaves behind in the problem shows in the next use
+					bad := [][]int{gen.RandClause(r, n, 1+r.Intn(2), true)}
+					if r.Intn(2) == 0 {
+						bad = append(bad, []int{})
+					}
+					seq := []gen.M{{"op": "check", "entry": entry, "src": "given", "cert": bad, "mut": "none", "seed": 0}}
+					for j := 0; j < 1+r.Intn(2); j++ {
+						switch r.Intn(4) {
+						case 0:
+							seq = append(seq, gen.M{"op": "subset"})
+						case 1:
+							seq = append(seq, gen.M{"op": "mus", "method": []string{"MUS", "MUSInsertion", "MUSMaxSat"}[r.Intn(3)]})
+						case 2:
+							seq = append(seq, gen.M{"op": "check", "entry": entry, "src": "solver", "cert": [][]int{}, "mut": muts[r.Intn(len(muts))], "seed": r.Intn(1 << 20)})
+						default:
+							var cert [][]int
+							for x := 0; x < 1+r.Intn(3); x++ {
+								cert = append(cert, gen.RandClause(r, n, r.Intn(3), true))
+							}
+							cert = append(cert, []int{})
+							seq = append(seq, gen.M{"op": "check", "entry": []string{"reader", "chan"}[r.Intn(2)], "src": "given", "cert": cert, "mut": "none", "seed": 0})
+						}
+					}
+					ev = seq
+				}
+				res = append(res, gen.M{"drv": "explain", "n": n, "clauses": clauses, "ev": ev, "verbose": r.Intn(3) == 0})
 			}
 			return res
 		},
 		Cover: func(t core.Case, cov map[string]int) bool {
 			nt := false
+			if b(t, "verbose") {
+				cov["options.verbose"]++
+			}
+			if len(evs(t)) >= 2 {
+				cov["problem.reused"]++
+			}
 			for _, e := range evs(t) {
 				op := s(e, "op")
 				cov["op."+op]++
@@ -259,7 +291,7 @@ func init() {
 			}
 			return nt
 		},
-		Rule:    "cases: (CNF problem, certificate) pairs, n<=8: genuine certificates of the real solver, the same with one literal dropped / flipped, one line removed, two lines swapped, and random clause sequences (with and without the empty clause), through Unsat(reader) and UnsatChan(chan), each twice in a row; UnsatSubset on random problems; non-trivial = certificate with at least two lines, or a successful subset extraction",
-		Require: []string{"entry.reader", "entry.chan", "check.valid", "check.invalid", "mut.drop", "mut.flip", "mut.remove", "subset.ok", "subset.error"},
+		Rule:    "cases: (CNF problem, certificate) pairs, n<=8, one third as sequences of 2..3 uses of one Problem value starting with a rejected certificate, Options.Verbose on in one third: genuine certificates of the real solver, the same with one literal dropped / flipped, one line removed, two lines swapped, and random clause sequences (with and without the empty clause), through Unsat(reader) and UnsatChan(chan), each twice in a row; UnsatSubset on random problems; non-trivial = certificate with at least two lines, or a successful subset extraction",
+		Require: []string{"entry.reader", "entry.chan", "check.valid", "check.invalid", "mut.drop", "mut.flip", "mut.remove", "subset.ok", "subset.error", "options.verbose", "problem.reused"},
 	})
 }
